@@ -5,7 +5,7 @@ from . import tygen as TG
 from . import gencrate as GC
 from . import datacases as D
 
-THEOREMS = []
+THEOREMS = ["C06_no_panic", "C06_valid", "C06_len", "C06_suffix", "C06_total", "C06_valid_refuted_bulk_bool", "C06_len_refuted_before_F7"]
 HEADER = D.HEADER.replace("HarnessTy.", "HarnessTy Packed PackedDec HarnessC6.").replace(
     "From SF Require Import", "From SFX Require Import Extracted.\nFrom SF Require Import")
 
